@@ -157,7 +157,15 @@ class UserAddNode(ActionGroup):
         if pred is not None and succ is not None:
             self.actions.append(DeleteEdge(tracks, (pred, succ)))
         # add predecessor and successor edges
-        self.actions.append(AddNode(tracks, node, attributes, pixels))
+        try:
+            self.actions.append(AddNode(tracks, node, attributes, pixels))
+        except Exception:
+            # the node itself is refused (e.g. its id does not fit into the dtype of
+            # the segmentation): put back the edges removed above, so that the refused
+            # action leaves the tracks unchanged
+            for action in reversed(self.actions):
+                action.inverse()
+            raise
         if pred is not None:
             self.actions.append(AddEdge(tracks, (pred, node)))
         if succ is not None:
